@@ -143,7 +143,9 @@ ResNext ==
                 ELSE IF Case.fault THEN "controller-fault"
                 ELSE IF k = Len(Case.obs) THEN "ok"
                 ELSE LET o == Case.obs[k + 1] IN
-                     IF o.v # Want(Case, o) THEN "handle-" \o o.h ELSE "running"
+                     \* the subroutine ended although the link layer never got to deliver this pair's response
+                     IF o.pair + 1 > Len(Case.responses[o.req + 1]) THEN "handle-of-a-pair-whose-response-was-never-taken"
+                     ELSE IF o.v # Want(Case, o) THEN "handle-" \o o.h ELSE "running"
 Next == ReqNext \/ ResNext
 Spec == Init /\ [][Next]_vars
 Report == verdict \in {"running", "ok"} \/ PrintT(<<"VERDICT", "C11", verdict, id, k, "">>)
